@@ -222,6 +222,8 @@ def main():
                         sub = ":relocated" if cfg["reloc"] else ":not-relocated"
                         sub += ":with-greenhouses" if cfg["gh"] else ""
                     bad("%s:EqualsDocumented:%s%s" % (prop, name, sub), dict(where=label, month=i, got=float(got[i]), want=float(exp[name][i])))
+                    if name == "crops":  # the crop series is also a calendar-aligned supply series (C08)
+                        bad("C08:EqualsDocumented:crops%s" % sub, dict(where=label, month=i, got=float(got[i]), want=float(exp[name][i])))
             # stored food at the start (May)
             stocks = [c["END_OF_MONTH_STOCKS"][mn] for mn in MONTHS]
             want_sf = (stocks[stock_idx[5]] * c["PERCENT_STORED_FOOD_TO_USE"] / 100 - min(stocks) * c["RATIO_STOCKS_UNTOUCHED"]) * 4e6 / 1e9 * (
